@@ -507,7 +507,7 @@ class Parser:
         # Only consume identifier as label if on same line (ASI rule)
         if (
             self._check(TokenType.IDENTIFIER)
-            and self.current.line == self.previous.line
+            and not self.current.newline_before
         ):
             label = Identifier(self._advance().value)
         self._consume_semicolon()
@@ -519,7 +519,7 @@ class Parser:
         # Only consume identifier as label if on same line (ASI rule)
         if (
             self._check(TokenType.IDENTIFIER)
-            and self.current.line == self.previous.line
+            and not self.current.newline_before
         ):
             label = Identifier(self._advance().value)
         self._consume_semicolon()
@@ -532,7 +532,7 @@ class Parser:
         if (
             not self._check(TokenType.SEMICOLON)
             and not self._check(TokenType.RBRACE)
-            and self.current.line == self.previous.line
+            and not self.current.newline_before
         ):
             argument = self._parse_expression()
         self._consume_semicolon()
@@ -629,7 +629,7 @@ class Parser:
             return
         if self._check(TokenType.RBRACE) or self._is_at_end():
             return
-        if self.previous is not None and self.current.line != self.previous.line:
+        if self.current.newline_before:
             return
         raise self._error("Expected ';' between statements")
 
